@@ -7,7 +7,8 @@ executes explicit schedules on the real source with goroutines as threads, the C
 model (C10/Model.v) must predict enabled/parked sets after every step, every result
 and the final channel fields.  The property oracle (linearizability against Go's
 channel semantics + legitimacy of every deadlock) runs on the real code."""
-import json, os, sys, collections
+import json, os, re, sys, collections
+from concurrent.futures import ThreadPoolExecutor
 import vlib
 from vlib import coq_list
 
@@ -41,7 +42,9 @@ XWITNESSES = [
     ("xw_tryselect_blocks", [0, 0], [[[5, 0, 0, [[1, 1, 11], [0, 1, 12]]], [0, 1, 13, []]], [[6, 0, 0, [[0, 0, 0], [0, 1, 14]]]], [[1, 0, 0, []]]],
      [0, 2, 2, 0, 0, 0, 2, 0, 1, 1, 0, 0, 0, 1], ["unbuffered-recv-armed-for-counted-sender-then-blocked"]),
     ("xw_select_stuck_pair", [0, 0], [[[5, 0, 0, [[0, 0, 0], [1, 0, 0]]]], [[1, 1, 0, []]], [[5, 0, 0, [[1, 1, 11], [0, 0, 0]]], [0, 0, 12, []]]],
-     [0, 1, 2, 2, 1, 0, 2, 0, 0, 2, 1, 0, 0, 2, 0, 2, 0, 2, 0, 2], ["select-and-matching-partner-both-blocked-on-unbuffered-channel"]),
+     [0, 1, 2, 2, 1, 0, 2, 0, 0, 2, 1, 0, 0, 2, 0, 2, 0, 2, 0, 2], ["unbuffered-recv-armed-for-counted-sender-then-blocked"]),
+    ("xw_sendfirst_refuses", [0, 0], [[[5, 0, 0, [[1, 0, 0], [0, 1, 12]]]], [[5, 0, 0, [[1, 1, 15], [1, 1, 16]]]]],
+     [0, 0, 0, 0, 0, 0, 0, 0, 1, 0, 0, 0, 0, 1, 0, 0, 0, 0, 1, 1, 1, 1, 1, 1], ["select-sendfirst-receiver-refuses-select-senders"]),
 ]
 
 
@@ -103,17 +106,142 @@ def xcase_term(r):
     return "((%s : list nat * list (list xop) * schedule), (%s : xobservation))" % (inp, obs)
 
 
+# ---------------------------------------------------------------- compiler side of select (E + T2)
+def split_ir(ir):
+    fns, cur = {}, None
+    for line in ir.splitlines():
+        m = re.match(r'define\s.*?@("[^"]+"|[\w.$]+)\(', line)
+        if m:
+            cur = (m.group(1).strip('"'), [])
+            continue
+        if cur is not None:
+            if line.startswith("}"):
+                fns[cur[0]] = cur[1]
+                cur = None
+            else:
+                cur[1].append(line)
+    return fns
+
+
+def select_recv_slots(body):
+    """for every receive ChanOp built in a function body: (slot register, zero-initialised before the
+    Select/TrySelect call?, how the slot is made).  Purely syntactic."""
+    made, zeroed, chain, res = {}, set(), {}, []
+    for line in body:
+        t = line.split(";")[0].strip()
+        m = re.match(r"(%\w+) = (alloca .*|call ptr @\S*Alloc[ZU]\S*\(.*)", t)
+        if m:
+            made[m.group(1)] = m.group(2)
+            if "AllocZ" in m.group(2):
+                zeroed.add(m.group(1))
+        m = re.match(r"call void @llvm\.memset\S*\(ptr (%\w+), i8 0,", t)
+        if m:
+            zeroed.add(m.group(1))
+        m = re.match(r"store \S.* (zeroinitializer|null|0|0\.0+e\+00|false), ptr (%\w+)", t)
+        if m:
+            zeroed.add(m.group(2))
+        m = re.match(r'(%\w+) = insertvalue %"[^"]*runtime\.ChanOp" (undef|%\w+), (\w+) (\S+), (\d)', t)
+        if m:
+            dst, src, ty, val, idx = m.groups()
+            st = dict(chain.get(src, {}))
+            st[idx] = val
+            chain[dst] = st
+            if idx == "3" and val == "false" and "1" in st:     # Send == false: a receive case, Val is its buffer
+                slot = st["1"]
+                res.append((slot, slot in zeroed, made.get(slot, "?")))
+    return res
+
+
+def e2e_part(ck):
+    """llgo built from the working tree: a program whose selects receive from closed channels (the receive
+    buffer is a compiler-made stack slot the runtime does not write then) vs the reference toolchain, and the
+    T2 obligation that every select receive slot is zero-initialised in the emitted IR."""
+    import e2e
+    acts = []
+    L = e2e.LLGo(ck)
+    if not L.ok:
+        return [("broken", ("e2e:llgo-build", L.buildlog[-1500:]))]
+    d = os.path.join(ck.work, "c10e2e")
+    e2e.write_module(d, {"main.go": open(os.path.join(H, "e2e", "main.go.txt")).read()}, "c10e2e")
+    def emit_ir():
+        rcg, outg, gen = L.overlay_build("chore/verifgen", {"main.go": os.path.join(vlib.ROOT, "lib", "verifgen", "main.go")}, "verifgen")
+        if rcg != 0:
+            return rcg, outg, 1, ""
+        rci, ir = vlib.sh([gen, "."], cwd=d, env=L.env(), timeout=900)
+        return 0, "", rci, ir
+
+    with ThreadPoolExecutor(2) as tp:      # the program build and the IR emission run side by side
+        fb = tp.submit(L.build, d, os.path.join(d, "prog_llgo"))
+        fg = tp.submit(emit_ir)
+        (rc, out), (rcg, outg, rci, ir) = fb.result(), fg.result()
+    # T2: IR of the same package
+    if rcg != 0:
+        acts.append(("broken", ("t2-select-slot:verifgen-build", outg[-1200:])))
+    else:
+        if rci != 0:
+            acts.append(("broken", ("t2-select-slot:verifgen-run", ir[-1200:])))
+        else:
+            nslot = nfn = 0
+            for fname, body in split_ir(ir).items():
+                slots = select_recv_slots(body)
+                if slots:
+                    nfn += 1
+                for slot, ok, how in slots:
+                    nslot += 1
+                    if not ok:
+                        acts.append(("viol", ("select-recv-slot-not-zero-initialised",
+                                              "function %s: the receive buffer %s of a select case (%s) is passed to the runtime without being zeroed; "
+                                              "chanTryRecv does not write it when the case fires on a closed, drained channel" % (fname, slot, how),
+                                              {"function": fname, "slot": slot, "made_by": how})))
+            if nslot == 0:
+                acts.append(("broken", ("t2-select-slot:no-receive-case-found-in-ir", "the syntactic extraction found no receive ChanOp")))
+            acts.append(("cov_t2", "%d select receive buffers in %d functions checked for zero-initialisation in the emitted IR" % (nslot, nfn)))
+            acts.append(("count", nslot))
+    # E: run it
+    if rc != 0:
+        acts.append(("log", "e2e: llgo build of the select program failed: " + out[-600:]))
+        acts.append(("cov", "skipped: llgo could not compile the program"))
+        return acts
+    rc2, out2 = e2e.go_build(d, os.path.join(d, "prog_go"))
+    rcr, _, want = e2e.run_plain(os.path.join(d, "prog_go"), timeout=60)
+    if rc2 != 0 or rcr != 0:
+        acts.append(("log", "e2e: reference build/run failed " + out2[-300:]))
+        acts.append(("cov", "skipped: reference build failed"))
+        return acts
+    rc1, _, got = L.run_bin(os.path.join(d, "prog_llgo"), timeout=60)
+    gl, wl = got.strip().split("\n"), want.strip().split("\n")
+    if rc1 == 124:
+        acts.append(("viol", ("e2e-select-hang", "llgo-compiled select program did not finish within 60 s", {"stderr_tail": got[-600:]})))
+    elif rc1 != 0 or len(gl) != len(wl):
+        acts.append(("viol", ("e2e-select-run", "llgo-compiled select program: exit %d, %d lines (go: %d)" % (rc1, len(gl), len(wl)), {"stderr_tail": got[-600:]})))
+    else:
+        ndiff = 0
+        for a, b in zip(gl, wl):
+            if a != b:
+                ndiff += 1
+                tag = b.split(" ")[0]
+                key = "e2e-select-recv-from-closed-channel-not-zero" if tag[0] in "ABCD" else "e2e-chan-" + tag
+                acts.append(("viol", (key, "llgo prints %r, go prints %r" % (a, b), {"llgo": a, "go": b})))
+        acts.append(("cov", "%d lines compared with the reference toolchain, %d differ" % (len(wl), ndiff)))
+        acts.append(("count", len(wl)))
+    return acts
+
+
 def run(ck):
     ck.trusted = ["Coq 8.16.1 kernel (coqc, vm_compute)",
                   "harness scheduler props/C10/harness/vsched + stand-ins psync/clite (Mesa monitors, spurious wake-ups, Broadcast wakes all)",
                   "hand-written model coq/theories/C10/Model.v tied to z_chan.go by the schedule-indexed correspondence",
-                  "linearizability oracle in props/C10/harness/rt/chan_verif_test.go (Go channel semantics)"]
+                  "linearizability oracle in props/C10/harness/rt/chan_verif_test.go (Go channel semantics)",
+                  "lib/e2e.py + lib/verifgen (llgo built from the working tree, LLVM 14 shims), reference go toolchain, syntactic IR extraction in check.py"]
     ck.assumptions = ["pthread mutex/condition variables behave as Mesa monitors (wake-ups may be spurious, Broadcast wakes every waiter)",
                       "channel fields are touched only under the channel mutex, so one critical section is one atomic step",
                       "one channel, no select registered on it (p.sops empty); fewer than 2^16 threads (sends is a uint16)"]
     ck.coq_build("C10")
     ck.coq_props("LLGoV.C10.Props", "theories/C10/Props.v")
     ck.phase("coq built")
+
+    ex = ThreadPoolExecutor(1)
+    fut = ex.submit(e2e_part, ck)
 
     d = ccmod.make_module(ck)
     ccmod.add_pkg(d, "rt", os.path.join(H, "rt"), ["runtime/internal/runtime/z_chan.go"])
@@ -188,6 +316,17 @@ def run(ck):
         ck.correspondence_broken("C10.witnesses", outw[-800:])
 
     # model vs implementation, evaluated inside Coq
+    # the oracle has judged every executed schedule on the real code; the model is evaluated inside Coq on
+    # at most this many of them (seeded sample, witness replays first), so that the thorough tier stays
+    # within its budget on a loaded machine
+    lim = {"quick": 10 ** 9, "thorough": 25000}[ck.tier]
+    n_all, nx_all = len(runs), len(xruns)
+    if len(runs) > lim:
+        runs = runs[:len(WITNESSES)] + ck.rng.sample(runs[len(WITNESSES):], lim - len(WITNESSES))
+    if len(xruns) > lim:
+        xruns = xruns[:len(XWITNESSES)] + ck.rng.sample(xruns[len(XWITNESSES):], lim - len(XWITNESSES))
+    ck.cov["schedules_executed_and_judged_by_oracle"] = n_all + nx_all
+    ck.cov["schedules_compared_with_model_in_coq"] = len(runs) + len(xruns)
     hdr = "From LLGoV Require Import Lib.Common C10.Model.\nLocal Open Scope N_scope.\n"
     terms = [case_term(r) for r in runs]
     bad = ck.coq_mismatches(hdr, terms, "observe", "obs_eqb", "c10_runs", shard=250)
@@ -202,6 +341,22 @@ def run(ck):
         b = runs[bad[0]]
         ck.correspondence_broken("C10.Model/schedule", {"n_mismatch": len(bad), "first": {
             k: b[k] for k in ("cap", "progs", "sched", "masks", "res", "pslots", "fin", "end")}})
+    e2e_cov = []
+    for kind, arg in fut.result():
+        if kind == "viol":
+            ck.violation(*arg)
+        elif kind == "broken":
+            ck.correspondence_broken(*arg)
+        elif kind == "log":
+            ck.log(arg)
+        elif kind == "cov":
+            e2e_cov.append(arg)
+        elif kind == "cov_t2":
+            ck.cov["t2_select_recv_slot"] = arg
+        elif kind == "count":
+            ck.cov["evaluations"] += arg
+    ck.cov["e2e_select"] = e2e_cov
+    ck.phase("e2e done")
     classes = stats.get("classes", {})
     distinct = len({(r["cap"], json.dumps(r["progs"]), tuple(r["sched"])) for r in runs if len(r["sched"]) > 3})
     samples = [{k: r[k] for k in ("cap", "progs", "sched", "res", "end")} for r in runs[len(runs) // 3: len(runs) // 3 + 2]]
